@@ -29,6 +29,8 @@ PYO_LOADABLE = ".pyo" in importlib.machinery.BYTECODE_SUFFIXES  # False on CPyth
 STEMS = ["a1", "b2", "c3", "d4", "abc123", "0ff1ce", "r_x", "x.y", "notes"]
 SPECIAL_STEMS = ["__init__", ".#a1", ".#lock", "__init__"]
 INIT_PREFIXED = ["__init__x", "__init___v2"]
+# ordinary revision files whose names start with something unusual: only `.#` (lock) and the module `__init__` are excluded
+LEADING = [".a3_local", "#b3_wip", ".x", "#", "_u", "-d", "~t", "0", "A1", "@at", "x#y", "x.#y", "# sp", "é"]
 PLAIN_FILES = ["README", "xpy", "env.cfg", "script.py.mako", "a1.txt", "b2.py.bak", "c3.orig", "d4.pyx", "data.pyc.old"]
 SUBDIR_NAMES = ["sub", "sub2", "deep", "pkg", "zz"]
 
@@ -112,6 +114,8 @@ def gen_plan(rng, special=0.25, sizes=(1, 3)):
             st = rng.choice(SPECIAL_STEMS) if rng.random() < special else rng.choice(STEMS)
             if rng.random() < 0.06:
                 st = rng.choice(INIT_PREFIXED)  # ordinary revision files (regression guard for fixed finding C19-F13)
+            elif rng.random() < 0.12:
+                st = rng.choice(LEADING)
             base = pick_content()
             forms = set()
             r = rng.random()
